@@ -14,6 +14,7 @@ import OFV.Proofs.C09Inter
 import OFV.Proofs.C09Bk3
 import OFV.Proofs.C09IntMul
 import OFV.Proofs.C09Addr
+import OFV.Proofs.C09Ext4
 
 namespace OFV.C09
 open OFV.Model.C09 OFV.Spec.C09
@@ -274,6 +275,41 @@ vectors of Hamming weight one (`unitVec (2^e) a`), for every exponent `e`: the d
 theorem weight_one_binary_addressing_valid (e : Nat) (c : Code)
     (hc : weightOneBinaryAddressingCode e = .ok c) (a : Nat) (ha : a < 2 ^ e) :
     ValidOn c (unitVec (2 ^ e) a) := w1ba_valid' e c hc a ha
+
+/-! ## extractor / dissolve (binary_code_transform.py), tolerance-free Model
+
+`diag w o` is the value `Σ c_t χ_t(w)` of an operator made of Z / identity strings on the basis
+state with bits `w`; `melQ o t s` is the Spec matrix element `⟨t| o |s⟩`.  The Model functions
+take the tolerance of `QubitOperator.__isub__` as a parameter; the theorems are for tolerance 0
+(no coefficient is ever dropped).  With the library tolerance 1e-8 a monomial of more than 27
+variables would lose its `2^(1-k)` coefficients: that regime is outside these theorems. -/
+
+/-- `Q *= R` of the Symbolic Model is multiplicative on the values of Z / identity operators
+(uses the Pauli table extracted from the source: `Z·Z = I`, `I·Z = Z`). -/
+theorem z_operator_product (w : Nat → Bool) (a b : Model.Op) (ha : ZIop a) (hb : ZIop b) :
+    diag w (Model.mulOp .qubit a b) = diag w a * diag w b ∧ ZIop (Model.mulOp .qubit a b) :=
+  diag_mulOp w a b ha hb
+
+/-- `dissolve(term)` is the operator with value `(-1)^{product of the variables of the term}`
+(`1 - 2 Π (1 - Z_i)/2`). -/
+theorem dissolve_sound (w : Nat → Bool) (term : Mono) (o : Model.Op) (h : dissolve 0 term = .ok o) :
+    diag w o = sgnB (evalMono w term) ∧ ZIop o := dissolve_diag w term o h
+
+/-- `extractor(p)`: the product over the monomials has the value `(-1)^{p(w)}` on the basis
+state with bits `w` (for polynomials without an empty monomial, e.g. canonical ones). -/
+theorem extractor_sound (w : Nat → Bool) (p : Poly) (hp : ∀ t ∈ p, t ≠ []) (q : QV)
+    (h : extractor 0 p = .ok q) : diagQV w q = sgnB (evalPoly w p) ∧ ZIqv q :=
+  extractor_diag w p hp q h
+
+/-- … and in the Spec: when `extractor(p)` is an operator `o`, `⟨t| o |s⟩ = (-1)^{p(s)} δ_ts`. -/
+theorem extractor_sound_spec (p : Poly) (hp : ∀ t ∈ p, t ≠ []) (o : Model.Op)
+    (h : extractor 0 p = .ok (.op o)) (t s : Nat) :
+    Spec.melQ o t s = if t = s then sgnB (evalPoly (fun i => s.testBit i) p) else 0 := by
+  obtain ⟨h1, h2⟩ := extractor_diag (fun i => s.testBit i) p hp (.op o) h
+  rw [melQ_ZI o h2 t s]
+  split
+  · exact h1
+  · rfl
 
 /-! ## the literal segment codes (tables re-extracted from the source on every run) -/
 
